@@ -29,6 +29,7 @@ MANIFEST = {
     "note": "Trusts the reference merge and the documented language post-rules (Python forces asserts; C++ std shorthand applies its group as a unit).",
 }
 MANIFEST["text"] += ' Overrides also reach the tables nested inside the built-in configuration (C++ std shorthand groups, comment styles).'
+MANIFEST["text"] += ' A reused builder is also given a configuration file between two create() calls: the explicit values still beat the file in the context created last.'
 
 
 # ------------------------------------------------------------------------------------------------ reference
